@@ -256,6 +256,10 @@ pub fn child(args: &Args) -> i32 {
             print_init_events();
             status
         }
+        "gated" => {
+            *G_SKEW.lock().unwrap() = args.get("skew").unwrap_or("").split(',').filter_map(|x| x.parse().ok()).collect();
+            gated_child(args.req("scenario"), seed, args.num("stagger", 0))
+        }
         "pingpong" => {
             // objects travel between two threads between rounds; another decoder with a different loss pattern
             // works on the helper thread in between
@@ -567,6 +571,281 @@ fn expected_nested(n: usize, seed: u64) -> Vec<(usize, String)> {
 }
 
 // ----------------------------------------------------------------------
+// gated children: a state of MC_TableInit is reached on the real code by holding threads at the begin / end of
+// table initialisers (hook H6), then everything is released at the same instant
+
+static G_ACTIVE: std::sync::atomic::AtomicBool = std::sync::atomic::AtomicBool::new(false);
+static G_RELEASE: std::sync::atomic::AtomicBool = std::sync::atomic::AtomicBool::new(false);
+static G_ARRIVED: std::sync::atomic::AtomicUsize = std::sync::atomic::AtomicUsize::new(0);
+static G_HOLDS: std::sync::Mutex<Vec<(String, bool, bool)>> = std::sync::Mutex::new(Vec::new());
+
+static G_PROGRESS: std::sync::atomic::AtomicU64 = std::sync::atomic::AtomicU64::new(0);
+thread_local! {
+    static G_SLOT: std::cell::Cell<Option<usize>> = const { std::cell::Cell::new(None) };
+}
+
+fn gate_cb(table: &'static str, begin: bool) {
+    use std::sync::atomic::Ordering::SeqCst;
+    if !G_ACTIVE.load(SeqCst) {
+        return;
+    }
+    if G_RELEASE.load(SeqCst) {
+        // a released thread reached another initialiser boundary: it is making progress
+        if let Some(i) = G_SLOT.with(std::cell::Cell::get) {
+            G_PROGRESS.fetch_or(1 << i, SeqCst);
+        }
+        return;
+    }
+    let mine = {
+        let mut h = G_HOLDS.lock().unwrap();
+        match h.iter_mut().enumerate().find(|(_, e)| e.0 == table && e.1 == begin && !e.2) {
+            Some((i, e)) => {
+                e.2 = true;
+                Some(i)
+            }
+            None => None,
+        }
+    };
+    if let Some(i) = mine {
+        // how long this holder lingers after the release (a sweep over the relative timing of the released threads)
+        let linger = G_SKEW.lock().unwrap().get(i).copied().unwrap_or(0);
+        G_ARRIVED.fetch_add(1, SeqCst);
+        while !G_RELEASE.load(std::sync::atomic::Ordering::Acquire) {
+            std::hint::spin_loop();
+        }
+        for k in 0..linger {
+            std::hint::black_box(k);
+        }
+    }
+}
+
+static G_SKEW: std::sync::Mutex<Vec<u64>> = std::sync::Mutex::new(Vec::new());
+static G_TOUCHED: std::sync::atomic::AtomicUsize = std::sync::atomic::AtomicUsize::new(0);
+
+fn touch_table(t: &str) {
+    match t {
+        "EXP_LOG" => {
+            let _ = &*tables::EXP_LOG;
+        }
+        "LOG_WALSH" => {
+            let _ = &*tables::LOG_WALSH;
+        }
+        "MUL16" => {
+            let _ = &*tables::MUL16;
+        }
+        "MUL128" => {
+            let _ = &*tables::MUL128;
+        }
+        _ => {
+            let _ = &*tables::SKEW;
+        }
+    }
+}
+
+/// The engine whose rounds use table `t` (all of them use EXP_LOG, SKEW and, when decoding, LOG_WALSH).
+fn engine_for(t: &str, i: usize) -> &'static str {
+    match t {
+        "MUL16" => "nosimd",
+        "MUL128" => ["avx2", "ssse3", "default"][i % 3],
+        _ => ["naive", "nosimd", "avx2"][i % 3],
+    }
+}
+
+fn gated_round(touch: &str, slot: usize, seed: u64) -> (usize, &'static str, String) {
+    let e = engine_for(touch, slot);
+    let s = Scn { engine: e, k: 3, r: 2, sb: 64, handover: false };
+    let d = with_engine!(e, E, { run_scn::<E>(&s, seed + slot as u64) });
+    (slot, e, d)
+}
+
+fn gated_child(scenario: &str, seed: u64, stagger_ns: u64) -> i32 {
+    use std::sync::atomic::Ordering::SeqCst;
+    let sc: serde_json::Value = serde_json::from_str(scenario).expect("scenario json");
+    let strs = |v: &serde_json::Value| -> Vec<String> { v.as_array().map(|a| a.iter().map(|x| x.as_str().unwrap().to_string()).collect()).unwrap_or_default() };
+    verif::set_init_gate(Some(gate_cb));
+    // tables that are already done in the state
+    for t in strs(&sc["done"]) {
+        touch_table(&t);
+    }
+    let holders: Vec<(String, String, bool)> = sc["holders"]
+        .as_array()
+        .map(|a| a.iter().map(|h| (h["touch"].as_str().unwrap().to_string(), h["hold"].as_str().unwrap().to_string(), h["at"] == "begin")).collect())
+        .unwrap_or_default();
+    let arrivals = strs(&sc["arrivals"]);
+    *G_HOLDS.lock().unwrap() = holders.iter().map(|h| (h.1.clone(), h.2, false)).collect();
+    G_ACTIVE.store(true, SeqCst);
+    let mut handles = Vec::new();
+    let mut unreached = 0;
+    for (i, h) in holders.iter().enumerate() {
+        let touch = h.0.clone();
+        handles.push(std::thread::spawn(move || {
+            G_SLOT.with(|c| c.set(Some(i)));
+            touch_table(&touch);
+            G_PROGRESS.fetch_or(1 << i, SeqCst);
+            gated_round(&touch, i, seed)
+        }));
+        // one holder after the other: wait until it sits at its hold point
+        let t0 = Instant::now();
+        while G_ARRIVED.load(SeqCst) < i + 1 - unreached && t0.elapsed() < Duration::from_secs(3) {
+            std::thread::sleep(Duration::from_micros(200));
+        }
+        if G_ARRIVED.load(SeqCst) < i + 1 - unreached {
+            unreached += 1;
+        }
+    }
+    // arrivals: make their first touch at the instant of the release (plus a stagger)
+    let ready = Arc::new(std::sync::atomic::AtomicUsize::new(0));
+    for (j, touch) in arrivals.iter().enumerate() {
+        let touch = touch.clone();
+        let ready = ready.clone();
+        let slot = holders.len() + j;
+        let delay = Duration::from_nanos(stagger_ns * j as u64);
+        handles.push(std::thread::spawn(move || {
+            ready.fetch_add(1, SeqCst);
+            while !G_RELEASE.load(SeqCst) {
+                std::hint::spin_loop();
+            }
+            let t0 = Instant::now();
+            while t0.elapsed() < delay {
+                std::hint::spin_loop();
+            }
+            touch_table(&touch);
+            G_TOUCHED.fetch_add(1, SeqCst);
+            gated_round(&touch, slot, seed)
+        }));
+    }
+    let t0 = Instant::now();
+    while ready.load(SeqCst) < arrivals.len() && t0.elapsed() < Duration::from_secs(3) {
+        std::thread::sleep(Duration::from_micros(200));
+    }
+    std::thread::sleep(Duration::from_micros(500));
+    G_RELEASE.store(true, SeqCst);
+    if sc["fast"].as_bool().unwrap_or(false) {
+        // only the question "does this schedule get stuck" is asked of this process: as soon as every released holder
+        // has moved on (reached another initialiser boundary or finished its touch) and every arrival has its table,
+        // nothing can be stuck any more (a cycle needs two) and the process ends without building the rest (results are compared in the
+        // full runs of the same state).  Otherwise it falls through to the joins and the parent's watchdog decides.
+        let all = if holders.len() >= 64 { u64::MAX } else { (1u64 << holders.len()) - 1 };
+        let t0 = Instant::now();
+        while t0.elapsed() < Duration::from_millis(1500) {
+            // all holders but one have moved on: the last one cannot be stuck on its own
+            let moved = (G_PROGRESS.load(SeqCst) & all).count_ones() as usize;
+            if moved + 1 >= holders.len().max(1) + usize::from(holders.len() <= 1) && G_TOUCHED.load(SeqCst) == arrivals.len() {
+                println!("{}", Obj::new().str("ev", "note").int("unreached", unreached as i64).done());
+                use std::io::Write;
+                let _ = std::io::stdout().flush();
+                std::process::exit(0);
+            }
+            std::thread::sleep(Duration::from_micros(50));
+        }
+    }
+    let mut status = 0;
+    for h in handles {
+        match h.join() {
+            Ok((slot, engine, dig)) => println!("{}", Obj::new().str("ev", "result").int("slot", slot as i64).str("engine", engine).str("dig", &dig).done()),
+            Err(p) => {
+                println!("{}", Obj::new().str("ev", "panic").str("msg", &util::panic_message(&*p)).done());
+                status = 3;
+            }
+        }
+    }
+    print_init_events();
+    println!("{}", Obj::new().str("ev", "note").int("unreached", unreached as i64).done());
+    status
+}
+
+fn expected_gated(touches: &[String], seed: u64) -> Vec<(usize, String)> {
+    touches.iter().enumerate().map(|(i, t)| (i, gated_round(t, i, seed).2)).collect()
+}
+
+/// Parent of the gated children: one scenario per line of --scenarios, each repeated `repeat` times in fresh processes.
+pub fn main_gated(args: &Args) -> i32 {
+    let seed = args.num("seed", 1);
+    let mut trace = Trace::create(args.req("out"));
+    let tmo = Duration::from_secs(args.num("child-timeout", 20));
+    let par = args.num("par", 8) as usize;
+    let text = std::fs::read_to_string(args.req("scenarios")).expect("scenarios");
+    let mut jobs: Vec<(usize, String, Vec<String>, u64, u64, String)> = Vec::new(); // (scenario no, json, touches, seed, stagger, skew)
+    for (si, line) in text.lines().filter(|l| !l.trim().is_empty()).enumerate() {
+        let v: serde_json::Value = serde_json::from_str(line).expect("scenario");
+        let mut touches: Vec<String> = v["holders"].as_array().map(|a| a.iter().map(|h| h["touch"].as_str().unwrap().to_string()).collect()).unwrap_or_default();
+        touches.extend(v["arrivals"].as_array().map(|a| a.iter().map(|x| x.as_str().unwrap().to_string()).collect::<Vec<_>>()).unwrap_or_default());
+        let rep = v["repeat"].as_u64().unwrap_or(1);
+        for r in 0..rep {
+            let stagger = [0u64, 0, 40, 150, 600][(r % 5) as usize];
+            // relative timing of the released holders: a sweep of -44 .. +44 loop iterations in steps of 4
+            let d = (r % 23) as i64 * 4 - 44;
+            let skew = format!("{},{},{}", d.max(0), (-d).max(0), (r / 23) % 7 * 6);
+            jobs.push((si, line.to_string(), touches.clone(), seed * 100_000 + (si as u64) * 1000 + r, stagger, skew));
+        }
+    }
+    let results: Vec<(usize, ChildOut)> = std::thread::scope(|sc| {
+        let chunks: Vec<Vec<usize>> = (0..par).map(|p| (0..jobs.len()).skip(p).step_by(par).collect()).collect();
+        let jobs = &jobs;
+        let hs: Vec<_> = chunks
+            .into_iter()
+            .map(|c| {
+                sc.spawn(move || {
+                    c.into_iter()
+                        .map(|ji| {
+                            let (_, js, _, s, st, skew) = &jobs[ji];
+                            let o = run_child(
+                                &[
+                                    "threads-child".into(), "--mode".into(), "gated".into(), "--scenario".into(), js.clone(), "--seed".into(), s.to_string(),
+                                    "--stagger".into(), st.to_string(), "--skew".into(), skew.clone(),
+                                ],
+                                tmo,
+                            );
+                            (ji, o)
+                        })
+                        .collect::<Vec<_>>()
+                })
+            })
+            .collect();
+        let mut v: Vec<(usize, ChildOut)> = hs.into_iter().flat_map(|h| h.join().unwrap()).collect();
+        v.sort_by_key(|x| x.0);
+        v
+    });
+    let mut hangs = 0;
+    let mut unreached = 0;
+    let mut exp_cache: std::collections::HashMap<(Vec<String>, u64), Vec<(usize, String)>> = std::collections::HashMap::new();
+    for (pi, (ji, o)) in results.into_iter().enumerate() {
+        let (si, js, touches, s, st, _) = &jobs[ji];
+        let proc_id = pi as i64 + 1;
+        trace.line(&Obj::new().str("ev", "proc").int("proc", proc_id).str("kind", "race").str("what", &format!("gated scenario {si} seed={s} stagger={st}: {js}")).done());
+        let exp = exp_cache.entry((touches.clone(), *s)).or_insert_with(|| expected_gated(touches, *s)).clone();
+        for l in &o.lines {
+            if l.contains("\"ev\":\"note\"") {
+                if !l.contains("\"unreached\":0") {
+                    unreached += 1;
+                }
+                continue;
+            }
+            let mut line = l.replacen('{', &format!("{{\"proc\":{proc_id},"), 1);
+            if l.contains("\"ev\":\"result\"") {
+                let v: serde_json::Value = serde_json::from_str(l).unwrap();
+                let slot = v["slot"].as_u64().unwrap() as usize;
+                let e = exp.iter().find(|x| x.0 == slot).map_or("?".to_string(), |x| x.1.clone());
+                line = line.replacen('}', &format!(",\"expect\":\"{e}\"}}"), 1);
+            }
+            trace.line(&line);
+        }
+        if o.status == "hang" {
+            hangs += 1;
+        }
+        let nres = o.lines.iter().filter(|l| l.contains("\"ev\":\"result\"")).count();
+        // a fast run that ended early has no results (and that is all right); one that fell through has them all
+        let is_fast = serde_json::from_str::<serde_json::Value>(js).map(|v| v["fast"].as_bool().unwrap_or(false)).unwrap_or(false);
+        let fast_ended = is_fast && nres == 0 && o.status == "ok";
+        let nexp = if fast_ended { 0 } else { touches.len() };
+        trace.line(&Obj::new().str("ev", "exit").int("proc", proc_id).str("status", &o.status).int("results", nres as i64).int("expected_results", nexp as i64).done());
+    }
+    let lines = trace.finish();
+    println!("{{\"events\":{},\"procs\":{},\"hangs\":{},\"unreached\":{}}}", lines, jobs.len(), hangs, unreached);
+    0
+}
+
+// ----------------------------------------------------------------------
 // parent
 
 struct ChildOut {
@@ -618,7 +897,7 @@ fn run_child(args: &[String], timeout: Duration) -> ChildOut {
                     let _ = ch.wait();
                     break "hang".to_string();
                 }
-                std::thread::sleep(Duration::from_millis(5));
+                std::thread::sleep(Duration::from_micros(if start.elapsed() < Duration::from_millis(100) { 300 } else { 5000 }));
             }
         }
     };
